@@ -284,6 +284,9 @@ impl DeclareCommand {
             EnvironmentLookup::Anywhere
         };
 
+        // Read the option before taking a mutable borrow on the environment.
+        let export_on_assignment = context.shell.options().export_variables_on_modification;
+
         // Look up the variable.
         if let Some(var) = context
             .shell
@@ -307,6 +310,11 @@ impl DeclareCommand {
             if let Some(initial_value) = initial_value {
                 // We append if the declaration included an explicit index.
                 var.assign(initial_value, assigned_index.is_some())?;
+
+                // Under `allexport`, assigning through a declaration exports as well.
+                if export_on_assignment && !var.value().is_array() {
+                    var.export();
+                }
             }
 
             self.apply_attributes_after_update(var, verb)?;
